@@ -445,7 +445,10 @@ func conclude(p *Prop, tier string, seed uint64, nshards int, m *Merged, inconcl
 	for _, k := range sortedKeys(m.Viol) {
 		v := m.Viol[k]
 		if txt, ok := known[v.Key]; ok {
-			fmt.Printf("KNOWN-FINDING: property=%s %s (seen %d times in this run)\n", p.ID, txt, v.Count)
+			if i := strings.Index(txt, "::"); i >= 0 {
+				txt = strings.TrimSpace(txt[i+2:])
+			}
+			fmt.Printf("KNOWN-FINDING: property=%s %s [key %s, seen %d times in this run]\n", p.ID, txt, v.Key, v.Count)
 			m.Obs["known_finding_hits"] += v.Count
 			continue
 		}
